@@ -91,6 +91,14 @@ def register(w):
         if holds is False:
             d.update(args={"witness": "C06_loop_trip_family"}, replay={"reproduced": True, "detail": detail}, formula="", model=detail)
         out["obls"].append(d)
+        holds, detail = run_witness("C06_cond_sites_family", timeout=900)
+        d = {"oid": "jax2onnx.plugins.jax.lax.cond:CondPlugin.lower#bounded:every_conditional_of_a_graph_computes_on_its_own_operands", "kind": "bounded",
+             "status": "discharged" if holds else ("refuted" if holds is False else "unknown"), "backend": "enumerated", "time": time.time() - t0, "instances": 1, "trivial": 0,
+             "bounded": "5 programs with two conditionals sharing their branch callables (independent sites, stacked, inside and after a loop body, two-branch switch, helper next to an inline lambda), all 4 predicate combinations x 4 operand pairs",
+             "note": f"the construction of If branch graphs (cond.py) is not under contract; the real export is run on an enumerated family and compared with JAX; {detail}"[:500]}
+        if holds is False:
+            d.update(args={"witness": "C06_cond_sites_family"}, replay={"reproduced": True, "detail": detail}, formula="", model=detail)
+        out["obls"].append(d)
         out["paths"], out["time"] = 1, time.time() - t0
         return out
-    w.add_contract(Contract("jax2onnx.plugins.jax.lax:<bounded-loops>", kind="custom", custom=bounded_loops, props=["C06"], witnesses=["C06_loop_trip_family"]))
+    w.add_contract(Contract("jax2onnx.plugins.jax.lax:<bounded-loops>", kind="custom", custom=bounded_loops, props=["C06"], witnesses=["C06_loop_trip_family", "C06_cond_sites_family"]))
